@@ -216,6 +216,8 @@ var mateStarts = []string{
 	"8/8/8/8/8/5k2/4q3/7K w - - 0 1", "8/8/8/8/8/2k5/1q6/K7 w - - 0 1", "1k6/ppp5/8/8/8/8/8/K2R4 w - - 0 1",
 	"8/8/8/8/8/1K6/2Q5/k7 b - - 0 1", "4k3/4P3/4K3/8/8/8/8/8 b - - 0 1", "8/8/8/8/8/4k3/4p3/4K3 w - - 0 1",
 	"3k4/3P4/3K4/8/8/8/8/8 w - - 0 1", "k7/2K5/8/8/8/8/8/1R6 w - - 0 1", "7k/8/5KQ1/8/8/8/8/8 b - - 0 1",
+	// the best move is an under-promotion (knight mates, rook avoids stalemate)
+	"6r1/5Ppp/7k/5K2/6P1/8/8/8 w - - 0 1", "2r5/kP6/p7/8/8/8/6B1/1R5K w - - 0 1", "8/5P1k/5K2/8/8/8/8/8 w - - 0 1",
 }
 
 func randomLine(r *rand.Rand, maxPlies int) (string, []string, *board.Board) {
